@@ -311,6 +311,7 @@ int main(int argc, char** argv) {
 
 def jobs(tier):
     js = [(h_inputbuffer, (mth,), 600) for mth in ('read', 'seek', 'skip')]
+    # h_outbuf_write_one is not scheduled: the FP growth loop of maybe_resize costs ~15 min of branch-feasibility queries and stays inconclusive
     for T in (32, 64):
         for w in WORDS:
             js.append((h_step, (w, T), 900))
@@ -319,3 +320,85 @@ def jobs(tier):
 
 def main(report, tier):
     return summarize(report, runner.run_tasks(jobs(tier)), 'C19')
+
+
+# ------------------------------------------------------------------------------------------------ output buffer
+def _stub_new_sized(eng, fr, ins, st, name, argv):
+    """operator new / new[]: small constant sizes are control blocks (record objects); anything else is a buffer of int64 cells"""
+    n = z3.simplify(argv[0])
+    if z3.is_bv_value(n) and n.as_long() <= 64:
+        return eng.new_record(st.mem, eng.fresh_name('ctrl'), n.as_long(), tag='heap')
+    nm = eng.fresh_name('heap')
+    eng.allocs.append((nm, n, st.pc))
+    return eng.new_array(st.mem, nm, ('i', 64), z3.simplify(z3.UDiv(n, z3.BitVecVal(8, 64))), tag='heap')
+
+
+@guard
+def h_outbuf_write_one(min_reserved=1):
+    """ForthOutputBufferOf<int64_t>::write_one_int64 from an arbitrary state 0 <= length_ <= reserved_ = capacity: the value lands at
+    the old length, earlier cells are preserved across a reallocation, length_ <= reserved_ afterwards, the growth loop terminates"""
+    from .mharness import stub_noop
+    m = MCtx([FOB], unwind=6, stubs={'_Znam': _stub_new_sized, '_Znwm': _stub_new_sized, 'awkward_free': stub_noop,
+                                     '__clang_call_terminate': stub_noop})
+    length, reserved, value = m.bv('length'), m.bv('reserved'), m.bv('value')
+    resize = m.fp('resize')
+    m.assume(length >= 0, length <= reserved, reserved >= min_reserved, reserved <= 2 ** 40,
+             z3.fpGEQ(resize, z3.FPVal(1.5, z3.Float64())), z3.fpLEQ(resize, z3.FPVal(16.0, z3.Float64())))
+    buf = m.array('obuf', ('i', 64), reserved)
+    m.mem.o['G@__libc_single_threaded'] = __import__('vf.llbmc', fromlist=['RecObj']).RecObj({0: (z3.BitVecVal(1, 8), 1)}, 1, True, 'global')
+    this = m.record('ob', {0: (NULL, 8), 8: (length, 8), 16: (reserved, 8), 24: (resize, 8), 32: (buf, 8), 40: (NULL, 8)})
+    m.call('_ZN7awkward19ForthOutputBufferOfIlE15write_one_int64Elb', [this, value, z3.BitVecVal(0, 1)])
+    L1, R1 = m.cell('ob', 8), m.cell('ob', 16)
+    newptr = m.cell('ob', 32)
+    old0 = z3.Array('obuf', z3.BitVecSort(64), z3.BitVecSort(64))
+    j = z3.BitVec('j', 64)
+    pres, stored, capok = [], [], []
+    for g, p in ptr_cases(newptr):
+        if p.obj is None:
+            capok.append(g); continue
+        o = m.mem.o[p.obj]
+        pres.append(z3.And(g, j >= 0, j < length, z3.Select(o.arr, bv64(p.off) + j) != z3.Select(old0, j)))
+        stored.append(z3.And(g, z3.Select(o.arr, bv64(p.off) + length) != value))
+        capok.append(z3.And(g, o.cap != R1))
+    obls = [('length_ grows by one', L1 != length + 1), ('length_ <= reserved_ afterwards', L1 > R1),
+            ('earlier output cells are preserved', z3.Or(pres + [z3.BoolVal(False)])),
+            ('the value is written at the old length', z3.Or(stored + [z3.BoolVal(False)])),
+            ('reserved_ is the capacity of the current buffer', z3.Or(capok + [z3.BoolVal(False)]))]
+
+    def replay(model, ent):
+        from .kharness import fp_to_py
+        ev = lambda e: model.eval(e, model_completion=True)
+        vals = dict(length=ev(length).as_signed_long(), reserved=ev(reserved).as_signed_long(), resize=fp_to_py(ev(resize)), value=ev(value).as_signed_long())
+        if vals['reserved'] > 10 ** 6:
+            return False, 'model too large to replay', vals
+        drv = r"""
+#include <cstdio>
+#include <cstdlib>
+#include "awkward/forth/ForthOutputBuffer.h"
+using namespace awkward;
+int main(int argc, char** argv) {
+  int64_t length = atoll(argv[1]), reserved = atoll(argv[2]); double resize = atof(argv[3]); int64_t value = atoll(argv[4]);
+  ForthOutputBufferOf<int64_t> b(reserved, resize);
+  for (int64_t i = 0; i < length; i++) b.write_one_int64(1000 + i, false);
+  b.write_one_int64(value, false);
+  int bad = 0;
+  if (b.len() != length + 1) bad |= 1;
+  int64_t* p = reinterpret_cast<int64_t*>(b.ptr().get());
+  for (int64_t i = 0; i < length; i++) if (p[i] != 1000 + i) bad |= 2;
+  if (p[length] != value) bad |= 4;
+  printf("bad=%d len=%lld\n", bad, (long long)b.len());
+  return bad ? 1 : 0;
+}
+"""
+        exe = build.compile_objs_driver(drv, [FOB])
+        try:
+            r = subprocess.run([exe, str(vals['length']), str(vals['reserved']), repr(vals['resize']), str(vals['value'])], capture_output=True, text=True,
+                               timeout=20, env=dict(os.environ, ASAN_OPTIONS='detect_leaks=0', UBSAN_OPTIONS='halt_on_error=1:exitcode=87'), errors='replace')
+        except subprocess.TimeoutExpired:
+            return True, 'native ForthOutputBufferOf<int64_t>(initial=%d, resize=%r): write does not return within 20 s (growth loop never ends)' % (vals['reserved'], vals['resize']), vals
+        if r.returncode != 0:
+            return True, 'native run fails: %s %s' % (r.stdout.strip(), [l for l in r.stderr.splitlines() if 'ERROR' in l or 'runtime error' in l][:1]), vals
+        return False, 'native run satisfies the postconditions: ' + r.stdout.strip(), vals
+    tw = [('reallocation path', length == reserved)]
+    return mdischarge(m, 'ForthOutputBufferOf<int64_t>::write_one_int64%s' % (' reserved_=0 twin' if min_reserved == 0 else ''), obls, tw,
+                      timeout_ms=120000, replay=replay, extra=dict(bounds='reserved_ in [%d, 2^40], resize in [1.5, 16]' % min_reserved))
